@@ -9,11 +9,17 @@ STUB_TRUST = ['stubs/rle_stubs.c: assumed contracts for carquet_bitunpack8_32 / 
 SHIFT_SOFT = [r'^shift distance too large in .*<< i \* 8']
 
 D = dict(overlays=['contracts/rle.ovl'], harness='harness/C08/rle.c', prop='C08',
-         extra_sources=['stubs/mem_stubs.c', 'stubs/rle_stubs.c'], trusted=STUB_TRUST, wip=True)
+         extra_sources=['stubs/mem_stubs.c', 'stubs/rle_stubs.c'], trusted=STUB_TRUST)
+W = dict(wip=True)
 DEC_HELPERS = ['start_new_run', 'fill_bitpack_buffer']
 RLE_SRCS = ['src/encoding/rle.c', 'src/core/bitpack.c', 'src/core/buffer.c']
 FZ_DEC = dict(kind='fuzz', harness='replay/fz/rle_decode.c', sources=RLE_SRCS, max_len=48, secs=20)
 FZ_PFX = dict(kind='fuzz', harness='replay/fz/rle_levels_prefixed.c', sources=RLE_SRCS, max_len=48, secs=20)
+
+E = dict(overlays=['contracts/rle.ovl'], harness='harness/C11/rle.c', prop='C11',
+         extra_sources=['stubs/mem_stubs.c', 'stubs/rle_stubs.c'], trusted=STUB_TRUST + [
+             'RLE encoder jobs: sequences of at most 2^31-1 values; bit width 0..32 (encoder side)'])
+ENC_HELPERS = ['flush_bitpack', 'flush_rle']
 
 JOBS = [
     dict(name='c08_rle_read_varint', replayer=FZ_DEC, entry='h_rle_read_varint', enforce='read_varint', min_loop_obligations=1, **D),
@@ -36,5 +42,22 @@ JOBS = [
     dict(name='c08_rle_decode_levels', replayer=FZ_DEC, entry='h_rle_decode_levels', enforce='carquet_rle_decode_levels',
          min_loop_obligations=6, soft=SHIFT_SOFT, est_s=90, **D),
     dict(name='c08_rle_decode_levels_prefixed', replayer=FZ_PFX, entry='h_rle_decode_levels_prefixed',
-         enforce='carquet_rle_decode_levels_prefixed', replace=['carquet_rle_decode_levels'], loop_contracts=False, **D),
+         enforce='carquet_rle_decode_levels_prefixed', replace=['carquet_rle_decode_levels'], loop_contracts=False,
+         note='FINDING (genuine, native ASan demo /tmp/rle/demo_prefixed.c): 4 + rle_length wraps in 32 bits, decode_levels is '
+              'called with a window beyond the input; stays wip until /repo is fixed', **W, **D),
+    ] + [
+    # ---- C11: encoder count preservation (ghost state) --------------------------------------------
+    dict(name='c11_rle_write_varint', entry='h_c11_write_varint', enforce='write_varint', min_loop_obligations=1, **W, **E),
+    dict(name='c11_rle_flush_rle', entry='h_c11_flush_rle', enforce='flush_rle', replace=['write_varint'],
+         min_loop_obligations=1, **W, **E),
+    dict(name='c11_rle_flush_bitpack', entry='h_c11_flush_bitpack', enforce='flush_bitpack', replace=['write_varint'],
+         min_loop_obligations=2, **W, **E),
+    dict(name='c11_rle_encoder_init', entry='h_c11_encoder_init', enforce='carquet_rle_encoder_init', loop_contracts=False,
+         defines=['CQV_MEMSET_EXACT=128'], unwindset=['memset.0:129'], **W, **E),
+    dict(name='c11_rle_encoder_put', entry='h_c11_put', enforce='carquet_rle_encoder_put', replace=ENC_HELPERS,
+         min_loop_obligations=1, **W, **E),
+    dict(name='c11_rle_encoder_flush', entry='h_c11_flush', enforce='carquet_rle_encoder_flush', replace=ENC_HELPERS,
+         min_loop_obligations=1, **W, **E),
+    dict(name='c11_rle_encoder_flush_append_failures', entry='h_c11_flush', enforce='carquet_rle_encoder_flush',
+         replace=ENC_HELPERS, min_loop_obligations=1, defines=['RLE_CHECK_APPEND=1'], **W, **E),
 ]
